@@ -105,7 +105,10 @@ FixedPool == <<"types", "messages", "schema", "detail", "sbepp", "std",
                "size", "begin", "end", "front", "back", "resize", "clear", "empty", "data", "cursor_range",
                "header", "blockLength", "numInGroup", "Byte", "Cursor", "Visitor", "T", "Args", "Tag",
                "c", "v", "args", "visitor", "last", "block_length", "num_in_group",
-               "tag_invoke", "NULL", "assert", "operator_call">>
+               "tag_invoke", "NULL", "assert", "operator_call",
+               \* the schema's own name (tools/namesgen.py PKG): generated code that names
+               \* <schema>::detail::... without the leading :: finds the entity instead
+               "c07s">>
 
 \* C++ keywords (C++11 .. C++20): "standard C++ naming rules are still applied",
 \* sbeppc is expected to refuse them; if it ever accepts one the output has to compile
